@@ -570,10 +570,19 @@ def pull_switch_rule(repo, rep):
                      (dotted(c.func) or '').startswith('self.')]
             if assertion_only(st):
                 continue
+            if isinstance(st, (ast.Assign, ast.AnnAssign)) and not any(
+                    isinstance(c, (ast.Call, ast.Subscript, ast.Attribute))
+                    for c in ast.walk(st.value or st)):
+                continue        # binds a name to a name / constant
             if calls:
                 first = calls[0]
                 break
-        ok = first is not None and \
+            # anything else that runs before the switch is looked at - a
+            # validation written in place (or inlined from a helper) raises
+            # its own error first
+            first = st
+            break
+        ok = isinstance(first, ast.Call) and \
             dotted(first.func) == 'self._validate_pull_operations_enabled'
         r8.ob(ok, n, {'first_call': norm(first, 50) if first is not None
                       else None})
